@@ -10,6 +10,7 @@ symbolically: scalars are Lean terms over a generic `K` with `[Num K]`, per-axis
 call that performs the transform (`mdft.dft2`, `czt.czt2`, ...) are recorded for every `method` branch.
 """
 import ast
+import re
 from pyexpr2lean import Gen, Tr, Untranslatable, load, get_def, find_calls, call_arg, fn_to_lean
 
 M = 'Model.C03'
@@ -163,6 +164,8 @@ class SymExec:
                         res['return'] = self.ev(s.value, env)
                     except Untranslatable:
                         res['return'] = env.get(ast.unparse(s.value))
+                    res['return_shape'] = env.get(ast.unparse(s.value) + '.shape')
+                    res['return_name'] = ast.unparse(s.value)
                 return True
             if isinstance(s, ast.Assign) and len(s.targets) == 1:
                 t = s.targets[0]
@@ -171,12 +174,24 @@ class SymExec:
                     if call is not None and ast.unparse(call.func) in TRANSFORMS:
                         self.record(call, env, res, method=None)
                         env[t.id] = '<field>'
+                        env[t.id + '.shape'] = res['calls'][None][1]['samples_out']
                         continue
                     if call is not None and ast.unparse(call.func) in self.inline:
                         sub = self.call_inline(ast.unparse(call.func), call, env)
                         res.setdefault('inlined', []).append((ast.unparse(call.func), sub))
                         env[t.id] = '<field>'
+                        if sub.get('return_shape') is not None:
+                            env[t.id + '.shape'] = sub['return_shape']
                         continue
+                    if isinstance(s.value, ast.BinOp) and isinstance(s.value.op, ast.Mult):
+                        # element-wise product of a propagated field with something else keeps the field's shape
+                        shp = [env.get(ast.unparse(x) + '.shape') for x in (s.value.left, s.value.right)]
+                        shp = [x for x in shp if x is not None]
+                        if shp and (env.get(ast.unparse(s.value.left)) == '<field>' or env.get(ast.unparse(s.value.right)) == '<field>'):
+                            env[t.id] = '<field>'
+                            env[t.id + '.shape'] = shp[0]
+                            res.setdefault('products', []).append((t.id, ast.unparse(s.value)))
+                            continue
                     try:
                         env[t.id] = self.ev(s.value, env)
                     except Untranslatable:
@@ -258,6 +273,7 @@ class SymExec:
                     self.record(st.value, env, res, method=meth)
                     if isinstance(st.targets[0], ast.Name):
                         env[st.targets[0].id] = '<field>'
+                        env[st.targets[0].id + '.shape'] = res['calls'][meth][1]['samples_out']
             if len(node.orelse) == 1 and isinstance(node.orelse[0], ast.If):
                 node = node.orelse[0]
                 continue
@@ -301,6 +317,12 @@ class SymExec:
                 raise
         sub = SymExec(self.mod, self.scalar_funcs, self.inline, self.depth + 1)
         return sub.run(fn, env2)
+
+
+def typed(term):
+    """pin numeric literals to the scalar type `K` (a comparison between two literals has no other type information)"""
+    term = re.sub(r'\(Num\.ofInt \((-?\d+)\)\)', r'(Num.ofInt (\1) : K)', term)
+    return re.sub(r'\(Num\.ofFrac \((-?\d+)\) (\d+)\)', r'(Num.ofFrac (\1) \2 : K)', term)
 
 
 def pair(v):
@@ -366,7 +388,7 @@ def emit_fixed(g, mod, py, prefix, want):
             raise Untranslatable('the transform is not applied to the input array with the requested output samples')
         out = []
         for nm, term in ((f'{prefix}Q0', q[0]), (f'{prefix}Q1', q[1]), (f'{prefix}Shift0', sh[0]), (f'{prefix}Shift1', sh[1])):
-            out.append(f'def {nm} ({FS_PARAMS} : K) : K :=\n  {term}')
+            out.append(f'def {nm} ({FS_PARAMS} : K) : K :=\n  {typed(term)}')
         return '\n'.join(out)
     fb = []
     for a, s in ((0, 's0'), (1, 's1')):
@@ -412,7 +434,7 @@ def generate(repo):
             space = 'psf' if meth == 'focus' else 'pupil'
             if ast.unparse(ret.value) != f"Wavefront({data_name}, self.wavelength, {tgt[0]}, space='{space}')":
                 raise Untranslatable('returned Wavefront is not (data, wavelength, dx)')
-            return f'def {meth}Dx (self_dx N0 N1 self_wavelength efl : K) : K :=\n  {term}'
+            return f'def {meth}Dx (self_dx N0 N1 self_wavelength efl : K) : K :=\n  {typed(term)}'
         conv = 'pupilToPsf' if meth == 'focus' else 'psfToPupil'
         g.item(f'Wavefront.{meth}', f'prysm/propagation.py:Wavefront.{meth}', lambda: get_def(pr, f'Wavefront.{meth}'), build,
                f'def {meth}Dx (self_dx N0 N1 self_wavelength efl : K) : K := {M}.{conv} self_dx N1 self_wavelength efl')
@@ -444,7 +466,7 @@ def generate(repo):
             ex = SymExec(pr, {})
             out = []
             for py, lean in (('input_dx', 'InputDx'), ('prop_dist', 'PropDist'), ('wavelength', 'Wavelength'), ('output_dx', 'OutputDx')):
-                out.append(f'def {short[meth]}Wrap{lean} (self_dx self_wavelength efl dx : K) : K := {ex.scalar(args[py], env)}')
+                out.append(f'def {short[meth]}Wrap{lean} (self_dx self_wavelength efl dx : K) : K := {typed(ex.scalar(args[py], env))}')
             if ast.unparse(args['wavefunction']) != 'self.data' or ast.unparse(args['shift']) != 'shift' \
                     or ast.unparse(args['output_samples']) != 'samples' or ast.unparse(args['method']) != 'method':
                 raise Untranslatable('wrapper does not pass data / samples / shift / method through')
@@ -453,7 +475,7 @@ def generate(repo):
                 raise Untranslatable('wrapper does not return a Wavefront')
             rfn = get_def(pr, 'Wavefront.__init__')
             _, rargs = positional(ret.value, rfn, skip_self=True)
-            out.append(f'def {short[meth]}WrapReportedDx (self_dx self_wavelength efl dx : K) : K := {ex.scalar(rargs["dx"], env)}')
+            out.append(f'def {short[meth]}WrapReportedDx (self_dx self_wavelength efl dx : K) : K := {typed(ex.scalar(rargs["dx"], env))}')
             return '\n'.join(out)
         fb = '\n'.join(f'def {short[meth]}Wrap{lean} (self_dx self_wavelength efl dx : K) : K := {v}' for lean, v in
                        (('InputDx', 'self_dx'), ('PropDist', 'efl'), ('Wavelength', 'self_wavelength'), ('OutputDx', 'dx'), ('ReportedDx', 'dx')))
